@@ -316,6 +316,9 @@ def shared_state_writes(ctx: Ctx) -> list[tuple[Func, ast.AST, str]]:
                     r = r[1][1]
                     while r[0] in ("sub", "attr"):
                         r = r[1]
+                if r[0] == "call" and r[1][0] == "global" and r[1][1].rpartition(".")[2] in ("get", "setdefault", "values", "items"):
+                    # `_TABLE.get(k, default)` resolved as one dotted global
+                    r = ("global", r[1][1].rpartition(".")[0])
                 if r[0] == "global":
                     modname, _, cname = r[1].rpartition(".")
                     m_ = ctx.repo.modules.get(modname)
